@@ -640,7 +640,10 @@ def oracle_C10(an):
                     quiet = not any(an.lines[j].m for j in range(first[5], li + 1)) and not any(
                         ("/p:" in an.op_of(j) or an.op_of(j).startswith("poke")) for j in range(first[5], li + 1))
                     quiet = quiet and not any("/p:" in o for o in an.scn.ops if o.startswith(("hq", "vq")))
-                    if quiet and x[1] == first[1] and x[2] == first[2] and x[4] != first[4]:
+                    # an event's text embeds the line break in force, which follows the command
+                    # machine's cr_flag and may change between two formats of the same event
+                    norm = (lambda b: bytes(b).replace(b"\r\n", b"\n")) if f == "u" else (lambda b: bytes(b))
+                    if quiet and x[1] == first[1] and x[2] == first[2] and norm(x[4]) != norm(first[4]):
                         v.append("%s machine: %s handler of command %d re-invoked on buffer %r, but the freshly formatted text is %r" % (f, x[1], x[2], x[4], first[4]))
                         break
         # variable callback failure aborts before the handler
@@ -900,6 +903,7 @@ def oracle_C14(an):
             if not unlockfail and l.ret != (2 if was_held_flag else 0):
                 v.append("cat_is_hold at op %s returned %d, flag %s" % (l.op, l.ret, was_held_flag))
         flag_now = was_held_flag
+        enter_hold = False
         for e in an.ev[li]:
             if e[0] == "R" and e[1] is not None and held:
                 v.append("input byte consumed at call %s while a command is held" % l.op)
@@ -914,8 +918,11 @@ def oracle_C14(an):
             if e[0] == "H" and e[3] == "u" and e[8] in (5, 6) and flag_now:
                 req = e[8] == 5
             if e[0] == "H" and e[3] == "c" and e[8] == 4:
-                held, req, released = True, None, False
-                flag_now = True
+                enter_hold = True      # takes effect when the handler has returned: API calls it makes
+                                       # itself (logged after this event) still see the flag down
+        if enter_hold:
+            held, req, released = True, None, False
+            flag_now = True
         for u in cstart.get(li, []):
             if held:
                 if req is None:
@@ -1015,8 +1022,16 @@ def oracle_C15(an):
         writes = sum(1 for j in idxs for e in an.ev[j] if e[0] == "W")
         cbs = sum(1 for j in idxs for e in an.ev[j] if e[0] in ("H", "V"))
         explained = 200 + reads * (2 * ncmd + 12) + writes * 6 + cbs * (4 * ncmd + 40)
+        # output also has to be accounted for: every unit belongs to a line (result code, data, or
+        # command-list lines) or to a callback round; units that keep coming without input or
+        # callbacks are a livelock even though "progress" is made
+        lo, hi = idxs[0], idxs[-1]
+        units_here = sum(1 for u in an.units if u.complete and lo <= u.end <= hi)
+        lines_in = bytes(an.input).count(b"\n")
+        triggers = sum(1 for o in an.scn.ops if o.startswith("trig"))
+        units_ok = 8 + lines_in * (3 + 5 * ncmd) + 3 * (triggers + an.scn.cap) + 3 * cbs
         if (last.ret != 0 and last.q[1] == 0 and len(idxs) >= int(t[1])
-                and (int(t[1]) >= bound or len(idxs) > explained)
+                and (int(t[1]) >= bound or len(idxs) > explained or units_here > units_ok)
                 and not an.uns_hold and not an.tr.abort):
             v.append("drain of %d calls at op %d never reached OK (last ret %d)" % (len(idxs), k, last.ret))
         if last.ret == 0 and len(idxs) > bound:
